@@ -13,7 +13,7 @@ EXTENDS Naturals, Integers, Sequences, FiniteSets, TLC, Json, IOUtils
 ProgsIn == ndJsonDeserialize(IOEnv.PROGS)
 Broken == IF "BROKEN" \in DOMAIN IOEnv THEN IOEnv.BROKEN ELSE "none"
 
-INSTANCE Shuttle WITH Progs <- ProgsIn, TrackWoken <- FALSE, SpuriousWakeups <- FALSE
+INSTANCE Shuttle WITH Progs <- ProgsIn, TrackWoken <- TRUE, SpuriousWakeups <- FALSE
 
 VARIABLES phase,   \* "rec" | "rep" | "done"
           S1,      \* recorded execution
